@@ -116,14 +116,23 @@ def classify_interstorms(cursor, data_interval, rising_jump_threshold_mm_h):
     )
     assert len(epoch), epoch.shape
     check_for_uniform_time_steps(epoch)
-    hour = epoch / 3600.0
+    (time_step_h,) = cursor.execute(
+        """
+    SELECT CAST(time_step_s AS double precision) / 3600.
+    FROM time_grid"""
+    ).fetchone()
     is_raining = is_raining.astype(bool)
     assert np.isfinite(zeta_mm).all()
     # Look for jumps in head much bigger than noise, which could
     # indicate the onset of rain, and mark everything after the jump
     # until the next rain as a "mystery jump".
-    rates = np.concatenate(([0], (zeta_mm[1:] - zeta_mm[:-1]) / (hour[1:] - hour[:-1])))
-    is_jump = (rates > rising_jump_threshold_mm_h).astype(bool)
+    # Compare increments with threshold * time step, as in
+    # match_all_storms: a rate computed from differences of epoch / 3600.
+    # depends on the absolute time through floating-point rounding
+    jump_delta_threshold = rising_jump_threshold_mm_h * time_step_h
+    is_jump = np.concatenate(
+        ([False], (zeta_mm[1:] - zeta_mm[:-1]) > jump_delta_threshold)
+    ).astype(bool)
     is_mystery_jump = get_mystery_jump_mask(is_jump, is_raining)
     is_interstorm = (~is_mystery_jump) & (~is_raining)
     interval_mask = is_interstorm
@@ -168,7 +177,7 @@ def classify_interstorms(cursor, data_interval, rising_jump_threshold_mm_h):
                 "thru_epoch": int(epoch[indices[-1]]),
             },
         )
-    del hour, zeta_mm
+    del zeta_mm
     del series_indices
 
 
